@@ -51,6 +51,7 @@ def shards(tier):
 
 def required_counters(tier):
     return {
+        "same_named_array_types.cases": 8, "first_call_twins.compared": 4, "temporaries.checks": 100,
         "histories": 500,
         "battery_runs": 1000,
         "fault.injected.Exception": 300,
@@ -713,6 +714,60 @@ def arm_first_call_twins(rec):
                 return
 
 
+_SAMENAME = [0]
+
+
+def arm_same_named_array_types(rec):
+    """two libraries each have an array class called `Tensor` (torch.Tensor / tensorflow.Tensor): annotations over
+    them print alike but are different classes.  Functions annotated with one of them are decorated in either order;
+    what each function accepts does not depend on which other function was decorated before it."""
+    import beartype
+    import typeguard
+
+    import jaxtyping
+    from jaxtyping import jaxtyped
+
+    for cname, tc in (("typeguard", typeguard.typechecked), ("beartype", beartype.beartype)):
+        for hint in ("plain", "tuple"):
+            for order in ("f-first", "g-first"):
+                _SAMENAME[0] += 1
+                dim = f"jtvsame{_SAMENAME[0]}"  # (typecheckers cache hints process-wide by their text: a new text every time)
+                A1 = type("Tensor", (np.ndarray,), {"__module__": "libone"})
+                A2 = type("Tensor", (np.ndarray,), {"__module__": "libtwo"})
+                H1, H2 = jaxtyping.Float[A1, dim], jaxtyping.Float[A2, dim]
+                ns = {"H1": H1, "H2": H2}
+                ann = (lambda h: h) if hint == "plain" else (lambda h: f"tuple[{h}, int]")
+                real.exec_src(f"def f(x: {ann('H1')}):\n    return 'ran'\ndef g(x: {ann('H2')}):\n    return 'ran'\n", ns)
+                names = ("f", "g") if order == "f-first" else ("g", "f")
+                deco = {}
+                for nm in names:
+                    deco[nm] = jaxtyped(typechecker=tc)(ns[nm])
+                a1, a2 = np.zeros(3, dtype="float32").view(A1), np.zeros(3, dtype="float32").view(A2)
+                wrap = (lambda v: v) if hint == "plain" else (lambda v: (v, 1))
+                obs = []
+                for nm, v in (("f", a1), ("f", a2), ("g", a2), ("g", a1)):
+                    try:
+                        deco[nm](wrap(v))
+                        obs.append("ok")
+                    except Exception as e:  # noqa
+                        obs.append("TypeCheckError" if isinstance(e, jaxtyping.TypeCheckError) else type(e).__name__)
+                rec.count("same_named_array_types.cases")
+                rec.case(("same-named", cname, hint, order), True)
+                want = ["ok", "TypeCheckError", "ok", "TypeCheckError"]
+                if obs == want:
+                    continue
+                # the known pattern: under beartype, inside a PEP 585 hint, the function decorated SECOND is checked against
+                # the annotation of the function decorated first
+                second_follows_first = ["ok", "TypeCheckError", "TypeCheckError", "ok"] if order == "f-first" else ["TypeCheckError", "ok", "ok", "TypeCheckError"]
+                known = cname == "beartype" and hint == "tuple" and obs == second_follows_first
+                rec.violation(
+                    "history-dependence",
+                    {"same_named_array_types": True, "checker": cname, "hint": hint, "order": order, "observed": obs},
+                    f"[{cname}] f(x: {ann('Float[libone.Tensor]')}) and g(x: {ann('Float[libtwo.Tensor]')}) decorated {order}: f(own), f(other), g(own), g(other) -> {obs}, expected {want}",
+                    mechanism="beartype-conflates-same-named-annotation-classes-inside-pep585-hints" if known else "same-named-array-types-verdict-depends-on-decoration-order",
+                )
+
+
 def run_shard(rec, seed, shard, tier):
     warnings.filterwarnings("ignore")
     GT.ensure_registered()
@@ -721,6 +776,8 @@ def run_shard(rec, seed, shard, tier):
         real.temporaries_probe(rec, "C12")  # a verdict about a value that has died says nothing about its successor
     if shard["i"] % 4 == 2:
         arm_first_call_twins(rec)
+    if shard["i"] % 4 == 3:
+        arm_same_named_array_types(rec)
     # the specification: the battery's answers in a fresh process that has done nothing else
     fresh = cold(["--battery-only"])
     if "error" in fresh:
